@@ -1045,7 +1045,7 @@ impl Hist {
                 format!("H xliq {} {} {} {} {} {} {} {}", ver, id, b(inc), liq, r.pick(&[0u8, 0, 1, 2]), fa, fb, auth)
             }
             45 => if r.chance(1, 4) { format!("H xsub grid 0 {} 0", id) } else { format!("H xsub {} {} {} {}", r.pick(&["swap", "swap", "swap", "liq", "liq", "dec", "dec", "liqt", "liqt", "liq1", "dec1", "repo", "repo"]), r.below(19), id, if r.chance(1, 2) { 0 } else { 1 + r.below(7) }) },
-            46 => {
+            46 | 95 | 96 => {
                 // position instructions of the Anchor path through the entrypoint (read-only on the history)
                 let kind = r.pick(&["upd", "cf", "cf", "close", "reset", "reset"]);
                 // close / reset need an empty position to succeed: prefer one when there is one
@@ -1156,7 +1156,7 @@ impl Hist {
                 let auth = r.pick(&[0u8, 0, 0, 0, 0, 0, 0, 1, 2, 3, 4, 5, 6]);
                 format!("H xrepo {} {} {} {} {} {} {} {}", id, nlo, nhi, new_liq, r.pick(&[0u8, 0, 1, 2, 3, 4, 5]), fa, fb, auth)
             }
-            49 if r.chance(1, 2) => {
+            49 | 97 | 98 if choice != 49 || r.chance(1, 2) => {
                 // reward / protocol-fee instructions through the entrypoint
                 let fee = |r: &mut Rng| -> String {
                     if r.chance(1, 2) {
